@@ -118,6 +118,8 @@ class ModelRunner:
             return "ok " + " ".join(_hex(t) for t in _unhex(w[1]).split())
         if op == "split_commas":
             return "ok " + " ".join(_hex(t) for t in _unhex(w[1]).replace(",", " ").split())
+        if op == "strip":
+            return "ok " + _hex(_unhex(w[1]).strip())
         if op == "isblank":
             return "ok %d" % (_unhex(w[1]).strip() == "")
         if op == "float":
